@@ -44,6 +44,15 @@ class UThZr(FuelMaterial):
 
         self.zrFrac = 0.09999  # custom param REM
         self.thFrac = 0.00001
+        self._calculateReferenceDensity()
+
+    def _calculateReferenceDensity(self):
+        """Reference mass density in g/cc by Vegard's law, the same mixture pseudoDensity() expands."""
+        u0 = 19.1
+        zr0 = 6.52
+        th0 = 11.68
+        uFrac = 1 - self.zrFrac - self.thFrac
+        self.refDens = 1.0 / (self.zrFrac / zr0 + uFrac / u0 + self.thFrac / th0)
 
     def pseudoDensity(self, Tk=None, Tc=None):
         """Calculate the mass density in g/cc of U-Zr alloy with various percents."""
